@@ -148,6 +148,41 @@ def curvature_centre(rng, seg):
     return z + rng.choice([0, 1e-12, -1e-12, 1e-10, -1e-10]) * nrm, 'curvature-centre'
 
 
+def gen_on_path(rng):
+    """a connected path with small-integer control points and a query point exactly ON it (distance exactly 0.0):
+    the path start, an interior vertex, or an interior point of an axis-aligned Line at t = k/8; the segments
+    after the one carrying the query point reach much farther away, so the farthest point is in a LATER segment"""
+    ri = lambda lo, hi: float(rng.randint(lo, hi))
+    n = rng.randint(3, 5)
+    verts = [complex(ri(-8, 8), ri(-8, 8))]
+    for k in range(n):
+        far = 1 if k < n - 1 else rng.choice([20, 40])            # the last segment goes far away
+        step = complex(ri(1, 6) * rng.choice([1, -1]), ri(1, 6) * rng.choice([1, -1])) * far
+        verts.append(verts[-1] + step)
+    segs = []
+    for k in range(n):
+        a, b = verts[k], verts[k + 1]
+        kind = rng.choice(['line', 'line', 'quad', 'cubic'])
+        if kind == 'line': segs.append(('line', [a, b]))
+        elif kind == 'quad': segs.append(('quad', [a, a + complex(ri(-4, 4), ri(-4, 4)), b]))
+        else: segs.append(('cubic', [a, a + complex(ri(-4, 4), ri(-4, 4)), b + complex(ri(-4, 4), ri(-4, 4)), b]))
+    mode = rng.choice(['start', 'vertex', 'axis-line-interior'])
+    if mode == 'start':
+        z = verts[0]
+    elif mode == 'vertex':
+        z = verts[rng.randint(1, n - 2)]
+    else:
+        j = rng.randint(0, n - 2)
+        a = verts[j]
+        m, k8 = ri(1, 4) * rng.choice([1, -1]), rng.randint(1, 7)
+        b = a + (8 * m if rng.random() < 0.5 else 8j * m)
+        segs[j] = ('line', [a, b])
+        if j + 1 < n:       # keep the path connected
+            nxt = list(segs[j + 1][1]); nxt[0] = b; segs[j + 1] = (segs[j + 1][0], nxt)
+        z = a + (b - a) * k8 / 8
+    return segs, z, 'path-on/' + mode
+
+
 def near_circular_cubic(rng):
     """the standard cubic approximation of a quarter circle, moved around; the
     centre is (nearly) equidistant from the whole curve"""
@@ -308,6 +343,9 @@ def run(rep, tier, seed, replay=None):
         else:
             # hand-picked: a point segment queried at itself (the seed (0, None, None) of the max fold)
             todo.append(('path', [('cubic', [3 + 4j] * 4)], 3 + 4j, 'degenerate-point-path'))
+            # hand-picked: query point = path start; the farthest point is in the last segment
+            todo.append(('path', [('line', [0j, 4 + 0j]), ('line', [4 + 0j, 4 + 3j]), ('line', [4 + 3j, 40 + 30j])],
+                         0j, 'corpus/on-start-farthest-later'))
             # hand-picked: centre of curvature of an S-shaped cubic; np.roots returns 5 sorted real roots with a
             # near-double root at positions (1,2)
             todo.append(('seg', 'cubic', [-6 + 9j, -2 - 19j, 6 + 15j, -14 - 9j],
@@ -326,7 +364,10 @@ def run(rep, tier, seed, replay=None):
                     pts, c = near_circular_cubic(rng)
                     z = c + rng.choice([0, 0, 1e-13, 1e-9, 1e-6]) * rnd(rng, 1)
                     todo.append(('seg', 'cubic', pts, z, 'near-circular/centre'))
-                elif u < 0.32:
+                elif u < 0.27:
+                    segs, z, qm = gen_on_path(rng)
+                    todo.append(('path', segs, complex(z), qm))
+                elif u < 0.37:
                     segs = []
                     for _ in range(rng.randint(1, 5)):
                         k, d, _m = gen_seg(rng); segs.append((k, d))
